@@ -339,7 +339,7 @@ std::string removeSubstrings(const std::string& s,
       for (std::size_t j = 0; j < exceptionsBeginning.size(); j++)
       {
         std::size_t pos = exceptionsBeginning[j].find(blockBeginning);
-        if (pos != std::string::npos)
+        if (pos != std::string::npos && pos <= i)
         {
           std::size_t left = i - pos;
           std::size_t right = i + exceptionsBeginning[j].length() - pos;
@@ -361,7 +361,7 @@ std::string removeSubstrings(const std::string& s,
       for (std::size_t j = 0; j < exceptionsEnding.size(); j++)
       {
         std::size_t pos = exceptionsEnding[j].find(blockEnding);
-        if (pos != std::string::npos)
+        if (pos != std::string::npos && pos <= i)
         {
           std::size_t left = i - pos;
           std::size_t right = i + exceptionsEnding[j].length() - pos;
